@@ -8,6 +8,7 @@ import Mathlib.Analysis.SpecialFunctions.Pow.Real
 import Mathlib.Analysis.SpecialFunctions.Trigonometric.Basic
 import Mathlib.Analysis.SpecialFunctions.Log.Basic
 import Mathlib.Analysis.SpecialFunctions.Sqrt
+import Mathlib.Analysis.SpecialFunctions.Complex.Arg
 import Mathlib.MeasureTheory.Integral.Bochner.Basic
 import Mathlib.MeasureTheory.Measure.Lebesgue.Basic
 
@@ -27,6 +28,7 @@ noncomputable instance : Transc ℝ where
   lgamma := fun x => Real.log (Real.Gamma x)
   ncdf := Phi
   floor := fun x => (⌊x⌋ : ℝ)
+  atan2 := fun y x => Complex.arg ⟨x, y⟩
   pi := Real.pi
 
 @[simp] theorem Transc.exp_real (x : ℝ) : Transc.exp x = Real.exp x := rfl
